@@ -1,6 +1,7 @@
 package sim
 
 import (
+	"github.com/go-fed/activity/streams"
 	"strings"
 	"context"
 	"fmt"
@@ -242,6 +243,16 @@ func (a *SimApp) cb(proto, mode, typ string, v vocab.Type) error {
 	name := proto + "." + mode + "." + typ
 	if f, _ := a.call("cb."+name, typeID(v)); f != nil {
 		a.ev("cb."+name, typeID(v), nil, "err", true)
+		if mode == "default" {
+			// the application's default callback may well dispatch through a resolver of its own and fail with the resolver's
+			// sentinels: an error all the same
+			switch (a.s.Spec.MapSeed >> 7) % 5 {
+			case 0:
+				return streams.ErrNoCallbackMatch
+			case 1:
+				return streams.ErrUnhandledType
+			}
+		}
 		return errInjected
 	}
 	a.ev("cb."+name, typeID(v), nil, "", false)
